@@ -263,7 +263,7 @@ pub fn handmade_theory(rng: &mut Rng) -> fol::Theory {
     };
     let defective = rng.chance(45);
     let mut heads: Vec<(String, usize, Vec<fol::Variable>)> = vec![];
-    let n = rng.below(5);
+    let n = g::count(rng, 4);
     let mut formulas = vec![];
     let defect_at = if n > 0 { rng.below(n) } else { 0 };
     for i in 0..n {
